@@ -22,6 +22,8 @@ Streams (all generated from common.case_rng, one PRNG per case):
   chain   real solvers on objectives whose optimum has a chain of parameters (consecutive members within the
           tolerance of each other, members two apart not): collapsed in ONE step (converge first, then install
           Or(CollapseAs, stop) and Solve again; Powell also in one phase) or across steps; same monitors as `solver`
+  cost / csolver   bounds collapse (collapse_cost, CollapseCost, Collapse() -> impose_bounds): see c11_cost.py
+  uneven  collapse_weight / collapse_position on product measures whose factors have different sizes (uneven_case)
 A failing relation is put into a recorded class (F21 overwritten by a later-running collapse constraint, F26 groups of
 tools.connected not merged) only when the composition of the UNCHANGED code itself breaks it (predict_composed).
 """
@@ -31,6 +33,7 @@ from common import case_rng, fl, fll, f2b, parse_reply, dyadic
 import framework, leandrv
 from framework import Finding
 import c11_measure as cm
+import c11_cost as cc
 
 PID = "C11"
 MODULE = "MysticVerif.Props.C11"
@@ -75,6 +78,13 @@ THEOREMS = [
     "MysticVerif.C11.applied_weight_reweighted_by_older_round_witness",
     "MysticVerif.C11.oldest_round_runs_last",
     "MysticVerif.C11.oldest_round_pairs_equal",
+    "MysticVerif.C11.cost_interval_intersection_sound",
+    "MysticVerif.C11.cost_interval_intersection_complete",
+    "MysticVerif.C11.own_output_as_mask_is_empty_cost",
+    "MysticVerif.C11.cost_upper_adds_count_witness",
+    "MysticVerif.C11.cost_clip_drops_good_region_witness",
+    "MysticVerif.C11.cost_own_output_degenerate_witness",
+    "MysticVerif.C11.cost_masked_parameter_dropped_witness",
 ]
 
 ERR = {"ValueError": "value", "TypeError": "type", "IndexError": "index"}
@@ -649,6 +659,88 @@ def det_case(rng, hist):
     out["special"] = special or malformed is not None
     if malformed:
         out["maskclass"] += "+" + malformed
+    return out
+
+
+K_UNEVEN = "collapse_%s/uneven-npts/monitor-views-misattribute-columns"
+
+
+def uneven_case(rng, hist):
+    """product measures whose factors have DIFFERENT sizes, records laid out as product_measure.flatten does
+    ([w_0.. x_0.. w_1.. x_1.. ..]): the real collapse_weight / collapse_position vs the model (which transcribes
+    Monitor.get_ipos / get_wts / get_pos as they are) and vs the definition on the TRUE layout.  A difference from the
+    definition is put into the recorded class (root cause C20-K6: get_ipos offsets every measure by npts[0], get_wts /
+    get_pos reshape to (T, len(npts), -1)) only when the result is exactly what that mechanism predicts."""
+    from mystic import collapse as ct
+    det = rng.choice(["weight", "position"])
+    npts = rng.choice([(2, 3), (3, 2), (2, 4), (4, 2), (1, 3), (3, 1), (1, 2), (2, 1), (2, 2, 4), (1, 2, 3), (3, 2, 1),
+                       (2, 3, 4), (1, 1, 4), (3, 3, 2, 2), (2, 4, 2, 4), (1, 5)])
+    m = len(npts); S = sum(npts)
+    T = rng.choice([1, 2, 3, 4, 6])
+    offs = [2 * sum(npts[:a]) for a in range(m)]
+    base = []
+    for a in range(m):
+        w = [rng.choice([0.0, 1 / 1024.0, 0.25, 0.5, 1.0]) for _ in range(npts[a])]
+        x = [dyadic(rng, -4, 4, 8) for _ in range(npts[a])]
+        for i in range(1, npts[a]):
+            if rng.random() < 0.4:
+                x[i] = x[rng.randrange(i)]          # coincident positions
+        base += w + x
+    rows = []
+    for t in range(T):
+        row = list(base)
+        for c in range(len(row)):
+            if rng.random() < 0.15:
+                row[c] = row[c] + rng.choice([1 / 2048.0, 1 / 128.0, 0.5])
+        rows.append(row)
+    g = rng.choice([None, 1, 2, T, T + 1])
+    tol = rng.choice([0.0, 1 / 1024.0, 1 / 256.0, 1 / 64.0])
+    w_ = ref_window(rows, g)
+    mon = make_monitor(rows, npts)
+    npsx = "(p %s)" % ints(npts)
+    out = {"det": det, "findings": [], "maskclass": "None+uneven-npts", "gclass": gclass(g, T),
+           "shape": "uneven:m=%d,%s" % (m, "divisible" if S % m == 0 else "not-divisible"), "special": False}
+    # what the TRUE layout gives / what the monitor's views give (transcription of monitors.py l.296-324 as it is)
+    iw = [offs[a] + i for a in range(m) for i in range(npts[a])]
+    ip_true = [offs[a] + npts[a] + i for a in range(m) for i in range(npts[a])]
+    ip_code = [offs[a] + npts[0] + i for a in range(m) for i in range(npts[a])]
+    per = S // m if S % m == 0 else None
+
+    def stat_w(cols):
+        return {c: max(r[c] for r in w_) for c in cols}
+    if det == "weight":
+        r = call(lambda: ct.collapse_weight(mon, tol, g, None))
+        line = "C11 weight (hist %s) (npts %s) (tol %s) (gen %s) (mask none)" % (fll(rows), npsx, f2b(tol), gstr(g))
+        impl = (("ok",) + canon_w(r[1])) if r[0] == "ok" else r[:2]
+        sw = stat_w(iw)
+        want = ("ok", "dict", sorted((a, i) for a in range(m) for i in range(npts[a]) if sw[offs[a] + i] <= tol))
+        if per is None:
+            mech = ("err", "value")
+        else:
+            mech = ("ok", "dict", sorted((j // per, j % per) for j, c in enumerate(iw) if sw[c] <= tol))
+    else:
+        r = call(lambda: ct.collapse_position(mon, tol, g, None))
+        line = "C11 position (hist %s) (npts %s) (tol %s) (gen %s) (mask none)" % (fll(rows), npsx, f2b(tol), gstr(g))
+        impl = (("ok",) + canon_p(r[1])) if r[0] == "ok" else r[:2]
+        want = ("ok", "dict", sorted((a, i, j) for a in range(m) for i in range(npts[a]) for j in range(i + 1, npts[a])
+                                     if max(abs(rr[offs[a] + npts[a] + i] - rr[offs[a] + npts[a] + j]) for rr in w_) <= tol))
+        if any(c >= 2 * S for c in ip_code):
+            mech = ("err", "index")
+        elif per is None:
+            mech = ("err", "value")
+        else:
+            mech = ("ok", "dict", sorted((a, i, j) for a in range(m) for i in range(per) for j in range(i + 1, per)
+                                         if max(abs(rr[ip_code[a * per + i]] - rr[ip_code[a * per + j]]) for rr in w_) <= tol))
+    out.update(line=line, impl=impl, args={"hist": rows, "npts": npts, "tolerance": tol, "generations": g, "mask": "None"})
+    if tuple(impl) != want:
+        if tuple(impl) == mech:
+            out["findings"].append((K_UNEVEN % det, "npts=%r: collapse_%s returned %r, the definition on the records' real layout "
+                                    "[w_0.. x_0.. w_1.. x_1..] gives %r; the monitor's views (get_ipos offsets by npts[0], get_wts/get_pos "
+                                    "reshape to (T, %d, -1)) predict exactly the returned value" % (npts, det, impl[1:], want[2], m)))
+        else:
+            out["findings"].append(("collapse_%s/not-per-definition/uneven-npts" % det,
+                                    "npts=%r: collapse_%s returned %r, the definition gives %r, the monitor-view mechanism %r" % (npts, det, impl, want, mech)))
+    out["monitored"] = True
     return out
 
 
@@ -1682,6 +1774,13 @@ def run_shard(pid, seed, shard, ncases, tier, extra):
         c["det"] = "upd"
         c["id"] = {"stream": "upd", "seed": seed, "shard": shard, "k": k}
         cases.append(c); lines.append(c["line"])
+    # ---- product measures with factors of different sizes (own PRNG stream)
+    nun = max(1, ncases // 5) if only in (None, "uneven") else 0
+    for k in range(nun):
+        rng = case_rng(PID + "/uneven", seed, shard, k)
+        c = uneven_case(rng, hist)
+        c["id"] = {"stream": "uneven", "seed": seed, "shard": shard, "k": k}
+        cases.append(c); lines.append(c["line"])
     if isinstance(only, (list, tuple)):      # replay of one case
         stream, k = only[1], only[2]
         rng = case_rng(PID + "/" + stream, seed, shard, k)
@@ -1689,6 +1788,8 @@ def run_shard(pid, seed, shard, ncases, tier, extra):
             c = det_case(rng, hist)
         elif stream == "upd":
             c = upd_case(rng, hist); c["det"] = "upd"
+        elif stream == "uneven":
+            c = uneven_case(rng, hist)
         else:
             c = None
         if c is not None:
@@ -1840,6 +1941,45 @@ def run_shard(pid, seed, shard, ncases, tier, extra):
                 loopcases.append((c, case))
             if len(samples) < 5 and stream == "msolver" and c.get("nontrivial") and not any(s_.get("id", {}).get("stream") == "msolver" for s_ in samples if isinstance(s_.get("id"), dict)):
                 samples.append({"id": c["id"], "args": {k_: v_ for k_, v_ in c["args"].items() if k_ not in ("events",)}})
+    # ---- bounds collapse: collapse_cost vs Model/CollapseCost.lean (cost), solver level (csolver); own PRNG streams
+    ncost = (extra or {}).get("ncost", 0) if only in (None, "cost") else 0
+    todo = list(range(ncost))
+    if isinstance(only, (list, tuple)) and only[1] == "cost":
+        todo = [only[2]]
+    ccases = []
+    for k in todo:
+        rng = case_rng(PID + "/cost", seed, shard, k)
+        c = cc.cost_case(rng, hist)
+        c["id"] = {"stream": "cost", "seed": seed, "shard": shard, "k": k, "tier": tier}
+        ccases.append(c)
+    creplies = leandrv.run_driver([c["line"] for c in ccases]) if ccases else []
+    for c, rep in zip(ccases, creplies):
+        evaluations += 1
+        lines.append(c["line"])
+        case = {"id": c["id"], "request": c["line"], "args": c["args"], "impl": c["impl"], "model": rep}
+        r = cc.judge_cost(c, rep, add, case)
+        if r[0] == "ok":
+            bump(hist, "cost:model-chain-ordered=" + str(r[1].get("chain")))
+        if c["nontrivial"]:
+            nontrivial += 1
+        for key, what in c["findings"]:
+            add("monitor", key, what, case)
+        if c["nontrivial"] and not any(isinstance(s_.get("id"), dict) and s_["id"].get("stream") == "cost" for s_ in samples):
+            samples.append(case)
+    ncs = (extra or {}).get("ncsolver", 0) if only in (None, "csolver") else 0
+    todo = list(range(ncs))
+    if isinstance(only, (list, tuple)) and only[1] == "csolver":
+        todo = [only[2]]
+    for k in todo:
+        rng = case_rng(PID + "/csolver", seed, shard, k)
+        c = cc.csolver_case(rng, hist, big=(tier == "thorough"))
+        case = {"id": {"stream": "csolver", "seed": seed, "shard": shard, "k": k, "tier": tier}, "args": c["args"]}
+        evaluations += 1
+        bump(hist, c["tag"])
+        if c["ncollapses"]:
+            nontrivial += 1
+        for key, what in c["findings"]:
+            add("monitor", key, what, case)
     for (c, case), rep in zip(loopcases, leandrv.run_driver(looplines)):
         r = parse_reply(rep)
         lines.append("loop")
@@ -1938,16 +2078,17 @@ def witnesses():
 def main(tier, seed):
     t0 = time.time()
     proof = framework.proof_stage(PID, MODULE, THEOREMS, tier)
-    nshards, per, nsolver, nchain, napply, nmapply, nmsolver = (16, 1000, 24, 20, 600, 200, 10) if tier == "quick" else (
-        64, 6000, 150, 120, 4000, 2000, 60)
+    nshards, per, nsolver, nchain, napply, nmapply, nmsolver, ncost, ncsolver = (16, 1000, 24, 20, 600, 200, 10, 300, 8) if tier == "quick" else (
+        64, 6000, 150, 120, 4000, 2000, 60, 2500, 60)
     run = framework.run_shards("c11", "run_shard", PID, seed, nshards, per, tier,
                                extra={"nsolver": nsolver, "nchain": nchain, "napply": napply, "nmapply": nmapply,
-                                      "nmsolver": nmsolver})
+                                      "nmsolver": nmsolver, "ncost": ncost, "ncsolver": ncsolver})
     run["findings"] = witnesses() + run["findings"]
 
     def search_more():
         r = framework.run_shards("c11", "run_shard", PID, seed + 7919, 32, 600, tier,
-                                 extra={"nsolver": 10, "nchain": 10, "napply": 400, "nmapply": 200, "nmsolver": 8})
+                                 extra={"nsolver": 10, "nchain": 10, "napply": 400, "nmapply": 200, "nmsolver": 8,
+                                        "ncost": 400, "ncsolver": 8})
         return r["findings"]
     rule = ("streams: det = the four real detectors on generated monitors (flat/drifting/tied/near-tolerance/jump/random columns, "
             "dyadic values so that ties with the tolerance are exact, tolerances at a column's change and one ulp either side, 0, "
@@ -1970,7 +2111,13 @@ def main(tier, seed):
             "with the model on samples and on every failing input. non-trivial = a "
             "detector case that reports at least one member, an update_mask case that changed a mask, a solver run with at least "
             "one applied collapse, an apply case with at least two pairs, a chain run that applied a non-transitive chain, a "
-            "mapply case with at least one collapsed weight or pair, a msolver run that applied both a weight and a position collapse")
+            "mapply case with at least one collapsed weight or pair, a msolver run that applied both a weight and a position collapse; "
+            "cost = the real collapse_cost on generated monitors (grids of several spacings, reversed / tied / constant / random "
+            "columns, runs of good and bad records with lengths around `samples` at either end and in the interior, special "
+            "floats, every mask spelling) vs Model/CollapseCost.lean + run-based definition monitors + termination round trip "
+            "(non-trivial = reports at least one parameter); csolver = DE, DE2, Nelder-Mead, Powell with Or(CollapseCost, stop) on "
+            "bowls with high plateaus (non-trivial = at least one applied cost collapse); uneven = collapse_weight / "
+            "collapse_position on product measures with factors of different sizes")
     tb = ["Lean 4.33 kernel; axioms per theorem listed under coverage.theorems",
           "hand-written model Model/Collapse.lean tied to collapse.py / mask.py by this differential run only",
           "the generator builds every mask together with its model term (no classifier inspects the Python object)",
@@ -1987,7 +2134,14 @@ def main(tier, seed):
           "the model's sequential sums; bit-exact and toleranced agreements counted separately)",
           "a failing measure relation is a recorded class only when the Lean model of the unchanged composition breaks the same "
           "relation on the same recorded input and the mechanism is found on the model's own groups (c11_measure.classify)",
-          "collapse_cost / CollapseCost (bounds collapse) is not modelled"]
+          "bounds collapse: hand-written model Model/CollapseCost.lean tied to collapse.collapse_cost / tools.interval_overlap by stream "
+          "`cost` only (keys, interval end points as bit patterns, error enum); the sort permutation of columns with tied values "
+          "is numpy's (passed to the model), of other columns the model's own stable sort; impose_bounds is not modelled (solver "
+          "level monitored by stream `csolver`)",
+          "class keys of failing cost-collapse clauses: c11_cost.definition_check / cost_case decide from the case itself "
+          "(upper interval equal to value + count, clip with a bad extreme record, degenerate interval, empty intersection with "
+          "the mask) whether a failure is a recorded class; stream `uneven`: the harness's transcription of the unchanged monitor "
+          "views (compared with the Lean model on every case) decides whether a deviation is the recorded class of C20-K6"]
     assumptions = ["IEEE binary64 - and comparisons agree between Lean Float and numpy float64; numpy max/min/ptp reductions "
                    "propagate NaN (modelled)",
                    "detector results are compared as sets of members (row-major order of numpy.where is not compared)",
@@ -1996,7 +2150,9 @@ def main(tier, seed):
                    "are iterated in the order list(the_set) gives for the very set object handed to impose_as",
                    "streams mapply / msolver: equal factor sizes (the monitor's measure views reshape to (T, len(npts), -1)); "
                    "the member sets of tools.connected are iterated in insertion order by the model (only the order in which "
-                   "weights are added up depends on it: inside the value tolerance)"]
+                   "weights are added up depends on it: inside the value tolerance)",
+                   "stream cost: parameter values and mask entries are never NaN; `samples` is None or an int; costs are scalars; "
+                   "numpy float64 + int64 at collapse.py l.318 equals Float + Float.ofNat (counts are small)"]
     return framework.finish(PID, tier, seed, t0, proof, run, rule, tb, assumptions, search_more=search_more)
 
 
